@@ -64,3 +64,61 @@ def run(ctx: Ctx) -> None:
                 bad.append({"returns": n_ret, "exit_row": exit_row, "predecessors": n_pred, "problems": probs[:2]})
     ctx.check(not bad, "R-C01.4", key, f.where, {"cases": n, "counterexamples": bad[:3]},
               "the exit block expects return values that (some of) its predecessors do not output, or in another position")
+
+
+def run_twice(ctx: Ctx) -> None:
+    """R-C01.4 (second instance)  lowering the same checked CFG twice leaves the signatures as the first lowering left them.
+
+    All monomorphic instances of a function share one checked CFG, so `compile_cfg` runs on the same object once per instance.
+    `compile_cfg` is interpreted twice in a row on one symbolic CFG (container / builder / `compile_bb` are recorders,
+    `insert_return_vars`, `is_return_var`, `return_var` are followed): after the second run the exit's input row and every
+    predecessor's output row are what they were after the first run (return variables present exactly once).
+    """
+    idx = ctx.idx
+    f = idx.find_func("compile_cfg", "guppylang_internals.compiler.cfg_compiler")
+    key = f"{f.qualname}#lowering-the-same-cfg-twice-keeps-the-signatures"
+    ps = [a.arg for a in f.node.args.args]
+    bad = []
+    n = 0
+    try:
+        for n_ret, n_exit, n_pred in itertools.product((0, 1, 2), (0, 1), (1, 2)):
+            n += 1
+            mk_var = lambda nm: Tok(nm, __class__="Variable", __bases__=("Place",), name=nm, ty=Tok(f"ty_{nm}", __methods__={"to_hugr": lambda r, a: "hugr_ty"}), __ident__=1)  # noqa: E731
+            sig = lambda i, o: Tok("sig", input_row=i, output_rows=o)  # noqa: E731
+            preds = [Tok(f"pred{j}", sig=sig([], [[mk_var(f"p{j}")]]), successors=[], __ident__=1) for j in range(n_pred)]
+            exit_bb = Tok("exit", sig=sig([mk_var(f"e{i}") for i in range(n_exit)], []), predecessors=preds, successors=[], __ident__=1)
+            for p in preds:
+                p.attrs["successors"] = [exit_bb]
+            cfg = Tok("cfg", exit_bb=exit_bb, entry_bb=preds[0], bbs=[*preds, exit_bb], output_ty=[Tok(f"rty{i}", __methods__={"to_hugr": lambda r, a: "hugr_ty"}) for i in range(n_ret)], __ident__=1)
+            builder = Tok("builder", _exit_op=Tok("exit_op"), parent_op=Tok("parent_op"), parent_node=Tok("parent_node"),
+                          hugr=Tok("hugr", __methods__={"_update_node_outs": lambda r, a: Tok("parent_node")}), __methods__={"branch": lambda r, a: None}, __ident__=1)
+            container = Tok("container", __methods__={"add_cfg": lambda r, a, builder=builder: builder}, __ident__=1)
+            env = {
+                ps[0]: cfg, ps[1]: container, ps[2]: [], ps[3]: Tok("ctx"),
+                "Signature": lambda node, ev, env: Tok("sig", input_row=ev.ev(node.args[0], env), output_rows=ev.ev(node.args[1], env)),
+                "Variable": lambda node, ev, env: Tok(ev.ev(node.args[0], env), __class__="Variable", __bases__=("Place",), name=ev.ev(node.args[0], env),
+                                                     ty=ev.ev(node.args[1], env), __ident__=1),
+                "type_to_row": lambda node, ev, env: list(ev.ev(node.args[0], env)),
+                "compile_bb": lambda node, ev, env: Tok("block", __getitem__=lambda i: Tok(f"port{i}")),
+            }
+            snaps = []
+            for _ in (1, 2):
+                out = PyEval(idx, f.module.name, max_depth=6).run(f.node.body, dict(env))
+                if out[0] == "raise":
+                    raise Raised(str(out[1]), str(out[1]))
+                snaps.append(([v.name for v in exit_bb.attrs["sig"].attrs["input_row"]],
+                              [[[v.name for v in row] for row in p.attrs["sig"].attrs["output_rows"]] for p in preds]))
+            rets = [f"%ret{i}" for i in range(n_ret)]
+            want = (rets + [f"e{i}" for i in range(n_exit)], [[rets + [f"p{j}"]] for j in range(n_pred)])
+            if snaps[0] != want or snaps[1] != want:
+                bad.append({"return_values": n_ret, "exit_row_length": n_exit, "predecessors": n_pred, "after_first_lowering": snaps[0], "after_second_lowering": snaps[1],
+                            "should_be_both_times": want})
+    except Unsupported as e:
+        ctx.undecided("R-C01.4", key, f.where, str(e))
+        return
+    except Raised as e:
+        ctx.violation("R-C01.4", key, f.where, {"problem": f"raises {e}"}, "compile_cfg fails on a well-formed checked CFG")
+        return
+    ctx.check(not bad, "R-C01.4", key, f.where, {"cases": n, "counterexamples": bad[:3], "n_counterexamples": len(bad)},
+              "a function that is lowered more than once (one checked CFG shared by several monomorphic instances) gets its return "
+              "variables prepended again: a block passes more values than the exit block declares (invalid HUGR / internal error)")
